@@ -74,18 +74,42 @@ theorem modeStart_other (c : Cfg) (s : St) (i q : Nat) (h : q ≠ i) : (modeStar
 theorem modeStart_length (c : Cfg) (s : St) (i : Nat) : (modeStart c s i).players.length = s.players.length :=
   modify_length _ _ _
 
+theorem ballStart_cur (c : Cfg) (s : St) (i : Nat) : (ballStart c s i).cur = s.cur := by
+  unfold ballStart; split <;> rfl
+theorem ballStart_dev (c : Cfg) (s : St) (i : Nat) : (ballStart c s i).dev = some i ∨ (ballStart c s i).dev = s.dev := by
+  unfold ballStart; split
+  · exact Or.inl rfl
+  · exact Or.inr rfl
+theorem ballStart_other (c : Cfg) (s : St) (i q : Nat) (h : q ≠ i) : (ballStart c s i).players[q]? = s.players[q]? := by
+  unfold ballStart; split
+  · exact modeStart_other _ _ _ _ h
+  · rfl
+theorem ballStart_length (c : Cfg) (s : St) (i : Nat) : (ballStart c s i).players.length = s.players.length := by
+  unfold ballStart; split
+  · exact modeStart_length _ _ _
+  · rfl
+
 theorem turnStart_cur (c : Cfg) (s : St) (i : Nat) : (turnStart c s i).1.cur = i := by
-  unfold turnStart; simp only []; rw [modeStart_cur]; rfl
-theorem turnStart_dev (c : Cfg) (s : St) (i : Nat) : (turnStart c s i).1.dev = some i := by
-  unfold turnStart; simp only []; exact modeStart_dev _ _ _
+  unfold turnStart; simp only []; rw [ballStart_cur]; rfl
+theorem turnStart_dev (c : Cfg) (s : St) (i : Nat) (h : s.dev = none) :
+    (turnStart c s i).1.dev = none ∨ (turnStart c s i).1.dev = some i := by
+  unfold turnStart; simp only []
+  rcases ballStart_dev c (setOn { s with cur := i } i "ball" (.int (intVar (varsOf s i) "ball" + 1))).1 i with e | e
+  · exact Or.inr e
+  · left; rw [e, setOn_dev]; exact h
 theorem turnStart_other (c : Cfg) (s : St) (i q : Nat) (h : q ≠ i) : (turnStart c s i).1.players[q]? = s.players[q]? := by
   unfold turnStart; simp only []
-  rw [modeStart_other _ _ _ _ h, setOn_players]
+  rw [ballStart_other _ _ _ _ h, setOn_players]
   exact modify_get_other _ _ _ _ h
 theorem turnStart_length (c : Cfg) (s : St) (i : Nat) : (turnStart c s i).1.players.length = s.players.length := by
   unfold turnStart; simp only []
-  rw [modeStart_length, setOn_players, modify_length]
+  rw [ballStart_length, setOn_players, modify_length]
 
+theorem targetOf_lt (s : St) (p : Nat) (h : s.players ≠ [] → s.cur < s.players.length) (hne : s.players ≠ []) :
+    targetOf s p < s.players.length := by
+  unfold targetOf; split
+  · assumption
+  · exact h hne
 
 theorem inv_step (c : Cfg) (s : St) (op : Op) (h : Inv s) : Inv (step c s op).1 := by
   obtain ⟨h1, h2⟩ := h
@@ -94,8 +118,8 @@ theorem inv_step (c : Cfg) (s : St) (op : Op) (h : Inv s) : Inv (step c s op).1 
     simp only [step]
     split
     · exact ⟨h1, h2⟩
-    · refine ⟨Or.inr ?_, fun _ => ?_⟩
-      · rw [turnStart_dev, turnStart_cur]
+    · refine ⟨?_, fun _ => ?_⟩
+      · rw [turnStart_cur]; exact turnStart_dev _ _ _ rfl
       · rw [turnStart_cur, turnStart_length]; simp
   | addPlayer =>
     simp only [step]
@@ -120,13 +144,46 @@ theorem inv_step (c : Cfg) (s : St) (op : Op) (h : Inv s) : Inv (step c s op).1 
       · refine ⟨h1, fun _ => ?_⟩
         rw [setOn_players, setOn_cur, modify_length]; exact h2 (by assumption)
       · exact ⟨h1, h2⟩
-  | dev d code =>
+  | setP p k v =>
+    simp only [step]
+    split
+    · exact ⟨h1, h2⟩
+    · refine ⟨h1, fun _ => ?_⟩
+      rw [setOn_players, setOn_cur, modify_length]; exact h2 (by assumption)
+  | addP p k d =>
+    simp only [step]
+    split
+    · exact ⟨h1, h2⟩
+    · split
+      · refine ⟨h1, fun _ => ?_⟩
+        rw [setOn_players, setOn_cur, modify_length]; exact h2 (by assumption)
+      · exact ⟨h1, h2⟩
+  | setMachine k v =>
+    simp only [step]
+    split <;> exact ⟨h1, h2⟩
+  | addMachine k d =>
+    simp only [step]
+    split
+    · exact ⟨h1, h2⟩
+    · split <;> exact ⟨h1, h2⟩
+  | wait n =>
     simp only [step]
     split
     · exact ⟨h1, h2⟩
     · refine ⟨h1, fun hp => ?_⟩
       simp only [modify_length] at hp ⊢
       exact h2 (by intro e; simp [e, modify] at hp)
+  | dev d code =>
+    simp only [step]
+    split
+    · exact ⟨h1, h2⟩
+    · split
+      · exact ⟨h1, h2⟩
+      · split
+        · exact ⟨h1, h2⟩
+        · refine ⟨h1, fun hp => ?_⟩
+          simp only [modify_length] at hp ⊢
+          exact h2 (by intro e; simp [e, modify] at hp)
   | swap d1 d2 =>
     simp only [step]
     split
@@ -141,13 +198,17 @@ theorem inv_step (c : Cfg) (s : St) (op : Op) (h : Inv s) : Inv (step c s op).1 
     · rename_i hne
       have hc := h2 hne
       split
-      · refine ⟨Or.inr ?_, fun _ => ?_⟩
-        · rw [modeStart_dev, modeStart_cur, setOn_cur]
-        · rw [modeStart_cur, modeStart_length, setOn_cur, setOn_players, modify_length]; exact hc
+      · refine ⟨?_, fun _ => ?_⟩
+        · rw [ballStart_cur, setOn_cur]
+          rcases ballStart_dev c (setOn { s with dev := none } s.cur "extra_balls"
+            (.int (intVar (varsOf { s with dev := none } s.cur) "extra_balls" - 1))).1 s.cur with e | e
+          · exact Or.inr e
+          · exact Or.inl (by rw [e, setOn_dev])
+        · rw [ballStart_cur, ballStart_length, setOn_cur, setOn_players, modify_length]; exact hc
       · split
         · exact ⟨Or.inl rfl, fun hp => absurd rfl hp⟩
-        · refine ⟨Or.inr ?_, fun _ => ?_⟩
-          · rw [turnStart_dev, turnStart_cur]
+        · refine ⟨?_, fun _ => ?_⟩
+          · rw [turnStart_cur]; exact turnStart_dev _ _ _ rfl
           · rw [turnStart_cur, turnStart_length]
             show (if s.cur + 1 < s.players.length then s.cur + 1 else 0) < s.players.length
             split <;> omega
@@ -174,8 +235,8 @@ theorem inv_step (c : Cfg) (s : St) (op : Op) (h : Inv s) : Inv (step c s op).1 
         · rw [setOn_cur, setOn_players, modify_length, modeStart_cur, modeStart_length]; exact hc
       · split
         · exact ⟨Or.inl rfl, fun hp => absurd rfl hp⟩
-        · refine ⟨Or.inr ?_, fun _ => ?_⟩
-          · rw [turnStart_dev, turnStart_cur]
+        · refine ⟨?_, fun _ => ?_⟩
+          · rw [turnStart_cur]; exact turnStart_dev _ _ _ rfl
           · rw [turnStart_cur, turnStart_length]
             show (if s.cur + 1 < (modeStart c { s with dev := none } s.cur).players.length then s.cur + 1 else 0)
               < (modeStart c { s with dev := none } s.cur).players.length
@@ -184,9 +245,22 @@ theorem inv_step (c : Cfg) (s : St) (op : Op) (h : Inv s) : Inv (step c s op).1 
             · rw [if_pos hh]; exact hh
             · rw [if_neg hh]; exact Nat.lt_of_le_of_lt (Nat.zero_le _) hc
 
-/-- one request leaves the dictionary of every player who is neither up before nor after it untouched -/
+/-- the player an explicitly targeted `variable_player` entry names (that entry is *meant* to write to that player) -/
+def explicitTarget : Op → Option Nat
+  | .setP p _ _ => some p
+  | .addP p _ _ => some p
+  | _ => none
+
+theorem dev_eq_cur {s : St} (h : Inv s) {p : Nat} (hp : s.dev = some p) : p = s.cur := by
+  rcases h.1 with e | e
+  · rw [e] at hp; cases hp
+  · rw [e] at hp; cases hp; rfl
+
+/-- one request leaves the dictionary of every player who is neither up before nor after it (nor named explicitly by
+it) untouched -/
 theorem frame_step (c : Cfg) (s : St) (op : Op) (h : Inv s) (q : Nat) (hq : q < s.players.length)
-    (h1 : q ≠ s.cur) (h2 : q ≠ (step c s op).1.cur) (hg : (step c s op).1.players ≠ []) :
+    (h1 : q ≠ s.cur) (h2 : q ≠ (step c s op).1.cur) (hg : (step c s op).1.players ≠ [])
+    (h3 : explicitTarget op ≠ some q) :
     (step c s op).1.players[q]? = s.players[q]? := by
   cases op with
   | startGame =>
@@ -211,26 +285,60 @@ theorem frame_step (c : Cfg) (s : St) (op : Op) (h : Inv s) (q : Nat) (hq : q < 
     · split
       · rw [setOn_players]; exact modify_get_other _ _ _ _ h1
       · rfl
+  | setP p k v =>
+    have ht : q ≠ targetOf s p := by
+      unfold targetOf; split
+      · intro e; exact h3 (by simp [explicitTarget, e])
+      · exact h1
+    simp only [step]
+    split
+    · rfl
+    · rw [setOn_players]; exact modify_get_other _ _ _ _ ht
+  | addP p k d =>
+    have ht : q ≠ targetOf s p := by
+      unfold targetOf; split
+      · intro e; exact h3 (by simp [explicitTarget, e])
+      · exact h1
+    simp only [step]
+    split
+    · rfl
+    · split
+      · rw [setOn_players]; exact modify_get_other _ _ _ _ ht
+      · rfl
+  | setMachine k v =>
+    simp only [step]
+    split <;> rfl
+  | addMachine k d =>
+    simp only [step]
+    split
+    · rfl
+    · split <;> rfl
+  | wait n =>
+    simp only [step]
+    split
+    · rfl
+    · rename_i p hp
+      have := dev_eq_cur h hp
+      subst this
+      exact modify_get_other _ _ _ _ h1
   | dev d code =>
     simp only [step]
     split
     · rfl
     · rename_i p hp
-      have : p = s.cur := by
-        rcases h.1 with e | e
-        · rw [e] at hp; cases hp
-        · rw [e] at hp; cases hp; rfl
+      have := dev_eq_cur h hp
       subst this
-      exact modify_get_other _ _ _ _ h1
+      split
+      · rfl
+      · split
+        · rfl
+        · exact modify_get_other _ _ _ _ h1
   | swap d1 d2 =>
     simp only [step]
     split
     · rfl
     · rename_i p hp
-      have : p = s.cur := by
-        rcases h.1 with e | e
-        · rw [e] at hp; cases hp
-        · rw [e] at hp; cases hp; rfl
+      have := dev_eq_cur h hp
       subst this
       exact modify_get_other _ _ _ _ h1
   | drain =>
@@ -238,7 +346,7 @@ theorem frame_step (c : Cfg) (s : St) (op : Op) (h : Inv s) (q : Nat) (hq : q < 
     split
     · rfl
     · split
-      · rw [modeStart_other _ _ _ _ h1, setOn_players]
+      · rw [ballStart_other _ _ _ _ h1, setOn_players]
         exact modify_get_other _ _ _ _ h1
       · split
         · rename_i hx; simp [*] at hg
@@ -274,10 +382,12 @@ end MpfVerif.Player
 
 namespace MpfVerif.Player
 
-/-- over the history `ops` from `s`, player `q` is never the one who is up and the game does not end -/
+/-- over the history `ops` from `s`, player `q` is never the one who is up, is never named explicitly as the target of
+a `variable_player` entry, and the game does not end -/
 def quiet (c : Cfg) (q : Nat) : St → List Op → Prop
   | _, [] => True
-  | s, op :: rest => q ≠ s.cur ∧ q ≠ (step c s op).1.cur ∧ (step c s op).1.players ≠ [] ∧ quiet c q (step c s op).1 rest
+  | s, op :: rest => q ≠ s.cur ∧ q ≠ (step c s op).1.cur ∧ (step c s op).1.players ≠ [] ∧ explicitTarget op ≠ some q ∧
+      quiet c q (step c s op).1 rest
 
 theorem step_length_mono (c : Cfg) (s : St) (op : Op) (hg : (step c s op).1.players ≠ []) :
     s.players.length ≤ (step c s op).1.players.length := by
@@ -292,14 +402,30 @@ theorem step_length_mono (c : Cfg) (s : St) (op : Op) (hg : (step c s op).1.play
     simp only [step]; split
     · simp
     · split <;> simp [setOn_players, modify_length]
-  | dev d code => simp only [step]; split <;> simp [modify_length]
+  | setP p k v => simp only [step]; split <;> simp [setOn_players, modify_length]
+  | addP p k d =>
+    simp only [step]; split
+    · simp
+    · split <;> simp [setOn_players, modify_length]
+  | setMachine k v => simp only [step]; split <;> simp
+  | addMachine k d =>
+    simp only [step]; split
+    · simp
+    · split <;> simp
+  | wait n => simp only [step]; split <;> simp [modify_length]
+  | dev d code =>
+    simp only [step]; split
+    · simp
+    · split
+      · simp
+      · split <;> simp [modify_length]
   | swap d1 d2 => simp only [step]; split <;> simp [modify_length]
   | drain =>
     simp only [step] at hg ⊢
     split
     · simp
     · split
-      · simp [modeStart_length, setOn_players, modify_length]
+      · simp [ballStart_length, setOn_players, modify_length]
       · split
         · rename_i hx; simp [*] at hg
         · simp [turnStart_length]
